@@ -49,6 +49,9 @@ def handle (j : Json) : List (String × Json) :=
   let out :=
     if nodes.any (fun (_, os) => os.any (·.isNone)) then "err names-expression+statement"
     else "ok\n" ++ "\n".intercalate (nodes.map fun (n, os) => n ++ ":" ++ ",".intercalate (sortStrs (os.filterMap id)))
-  [("m", out), ("s", out)]
+  -- an expression in a grouping nothing uses is an expression of the module (the specification); the compiler only looks at
+  -- what ends up in the schema (the model)
+  let unusedBad := jhas ex "u.must" && (obsOf "must" .expr "urn:m" (jobj ex "u.must")).isNone
+  [("m", out), ("s", if unusedBad then "err names-expression+statement" else out)]
 
 end YV.Drv.Xp
